@@ -68,7 +68,25 @@ func genRace(r *core.Rng, p *core.Plan, tier string) *core.Plan {
 	if tier == "thorough" {
 		n = r.Range(14, 60)
 	}
+	// most plans carry one deliberate reorganization: a side branch forked d
+	// blocks below the tip and grown past it, DPoS state readers in between
+	// (the rollback of the DPoS state by the block thread is what they meet)
+	overtakeAt := -1
+	if r.Bool(0.7) {
+		overtakeAt = r.Range(2, n-1)
+	}
 	for i := 0; i < n; i++ {
+		if i == overtakeAt {
+			d := r.Range(1, 3)
+			for j := 0; j <= d; j++ {
+				b := &BlockSpec{Miner: r.Intn(10), Dt: r.Intn(600), PMode: 4}
+				if j == 0 {
+					b.PMode, b.Parent = 2, d
+				}
+				p.Add(Step{Op: "mine", Task: 0, Block: b})
+				p.Add(Step{Op: "query", Task: 2 + r.Intn(2), Ref: 3 + r.Intn(2) + 8*r.Intn(100)})
+			}
+		}
 		switch r.Pick(30, 25, 40, 5) {
 		case 0:
 			b := g.block()
